@@ -25,6 +25,8 @@ DECIDED = [
     "converter selects pydantic v2, then v1, then basic",
     "R-C08-EMPTY (transport): the empty payload reaches the converter - no truthiness test on the way (C07's rule reused); R-C08-ALIGN (model config): the pydantic input model keeps default matching (no extra/strict/alias/str_* option, no foreign base)",
     "R-C08-ALIGN (round 5): unmatched payload entries are handed to **kwargs or to *args, never to both and never dropped when one exists (decided per flag combination on the CFG region governed by the catch-all flags); R-C08-CALL: every path from the actor's return to success passes convert_outputs (no truthiness shortcut)",
+    "R-C08-CALL (round 6): what is bound to the signature is the bucket's current content, fetched on every delivery (C07 marker rules reused)",
+    "R-C08-AWAITED: in the files this property is anchored in, no bare statement calls a coroutine function (the operation would never run)",
 ]
 NOT_DECIDED = ["equality of the arguments produced by the two converters (value level)", "decode(convert_outputs(v)) == v (value level)"]
 ASSUMPTIONS = ["pydantic fills declared defaults unvalidated unless validate_default is configured"]
@@ -36,6 +38,13 @@ KINDS5 = ("POSITIONAL_ONLY", "POSITIONAL_OR_KEYWORD", "KEYWORD_ONLY", "VAR_POSIT
 
 
 def run(ctx: Ctx) -> None:
+    from .shared import every_operation_awaited
+
+    every_operation_awaited(ctx, "R-C08-AWAITED")  # in the files this property is anchored in, no asynchronous operation is created and dropped
+    from .C07 import marker
+
+    with ctx.as_rule("R-C08-CALL"):
+        marker(ctx, "R-C08-CALL")  # what is bound to the signature is the bucket's CURRENT content (fetched on every delivery), else the inline payload
     kinds(ctx)
     sentinel_and_align(ctx)
     empty(ctx)
